@@ -1189,3 +1189,350 @@ func r01_8(c *Ctx) {
 		c.undecided("parser.scanSegment:value", P.pos(ss.Pos()), "expected value stores for field, end-of-event and comment")
 	}
 }
+
+// ---------------------------------------------------------------------------
+// R01.9: line-level scanning shape (FieldParser.Next, BOM, CRLF)
+
+func init() {
+	register(&Rule{ID: "R01.9", Title: "line-level scanning shape: FieldParser.Next consumption, single BOM strip, CRLF as one terminator", Floor: 8, Run: r01_9})
+	p := properties["C01"]
+	p.Rules = append(p.Rules, "R01.9")
+	p.Explanation += " R01.9 line-level shape: FieldParser.Next consumes exactly the line NextChunk returned and hands that line to scanSegment, reports ErrUnexpectedEOF (without consuming) exactly when the remaining data has no line break, returns true only when scanSegment accepted a field and false only when the data is exhausted; the BOM (EF BB BF) is stripped only under removeBOM && !started && HasPrefix, marking the parser started, and the stream parser disables the strip once a token was started; NewlineIndex reports length 2 exactly for CR immediately followed by LF inside the string."
+}
+
+func r01_9(c *Ctx) {
+	P := c.P
+	// (a) FieldParser.Next
+	fn := P.Fn("(*parser.FieldParser).Next")
+	if fn == nil || len(fn.Params) != 2 {
+		c.anchor("(*parser.FieldParser).Next")
+	} else {
+		recv, out := fn.Params[0], fn.Params[1]
+		name := fnLabel(fn)
+		var nc, ss *ssa.Call
+		eachInstr(fn, func(in ssa.Instruction) {
+			if call, ok := isModCall(in, "parser.NextChunk"); ok {
+				if b, ok := isFieldLoad(call.Call.Args[0], "parser.FieldParser", "data"); ok && b == ssa.Value(recv) {
+					nc = call
+				}
+			}
+			if call, ok := isModCall(in, "(*parser.FieldParser).scanSegment"); ok {
+				ss = call
+			}
+		})
+		if nc == nil || ss == nil {
+			c.bad(name+":shape", P.pos(fn.Pos()), "FieldParser.Next does not (split f.data with NextChunk, hand the line to scanSegment)")
+		} else {
+			ext := func(i int) func(ssa.Value) bool {
+				return func(v ssa.Value) bool { e, ok := v.(*ssa.Extract); return ok && e.Index == i && e.Tuple == ssa.Value(nc) }
+			}
+			c.check(len(ss.Call.Args) == 3 && ext(0)(ss.Call.Args[1]) && ss.Call.Args[2] == ssa.Value(out) && guardedByBool(fn, ss.Block(), ext(2), true),
+				name+":line-to-scanSegment", P.ipos(ss), "the line NextChunk returned is scanned into the caller's Field, only when it was terminated", "scanSegment does not receive the terminated line returned by NextChunk (and the caller's Field)")
+			// consumption
+			nData := 0
+			eachInstr(fn, func(in ssa.Instruction) {
+				st, ok := in.(*ssa.Store)
+				if !ok {
+					return
+				}
+				if b, ok := isFieldSel(st.Addr, "parser.FieldParser", "data"); ok && b == ssa.Value(recv) {
+					nData++
+					c.check(ext(1)(st.Val) && guardedByBool(fn, st.Block(), ext(2), true) && instrDominates(st, ss), name+":consume", P.ipos(st),
+						"f.data advances to NextChunk's remainder, only for a terminated line, before the line is scanned", "f.data is not advanced exactly to the remainder after a terminated line: a line is parsed twice or skipped")
+				}
+				if b, ok := isFieldSel(st.Addr, "parser.FieldParser", "err"); ok && b == ssa.Value(recv) {
+					c.check(isGlobalLoadPkg(st.Val, parserPath, "ErrUnexpectedEOF") && guardedByBool(fn, st.Block(), ext(2), false), name+":unexpected-eof", P.ipos(st),
+						"ErrUnexpectedEOF is recorded exactly when the remaining data has no line break", "the unterminated-last-line error is recorded under another condition")
+				}
+			})
+			if nData == 0 {
+				c.bad(name+":consume", P.pos(fn.Pos()), "FieldParser.Next never advances f.data")
+			}
+			for i, ret := range returnsOf(fn) {
+				rn := name + ":return#" + itoa(i)
+				b, isC := constBool(ret.Results[0])
+				if !isC {
+					c.undecided(rn, P.ipos(ret), "non-constant result")
+					continue
+				}
+				if b {
+					c.check(guardedByBool(fn, ret.Block(), func(v ssa.Value) bool { return v == ssa.Value(ss) }, true), rn, P.ipos(ret), "true only when scanSegment accepted the line", "Next reports a field although scanSegment rejected the line")
+					continue
+				}
+				// false: unterminated line (err set) or data exhausted
+				eof := guardedByBool(fn, ret.Block(), ext(2), false)
+				exhausted := false
+				for _, ifi := range ifsIn(fn) {
+					cnd := decodeIf(ifi)
+					if cnd.Y == nil {
+						continue
+					}
+					s, isS := constString(cnd.Y)
+					if !isS || s != "" {
+						continue
+					}
+					if bb, ok := isFieldLoad(cnd.X, "parser.FieldParser", "data"); ok && bb == ssa.Value(recv) && (cnd.Op == token.NEQ || cnd.Op == token.EQL) {
+						if edgeDominates(ifi.Block(), cnd.succWhen(cnd.Op == token.EQL), ret.Block()) {
+							exhausted = true
+						}
+					}
+				}
+				c.check(eof || exhausted, rn, P.ipos(ret), "false only for an unterminated last line or exhausted data", "Next returns false although terminated lines remain: the rest of the event is dropped")
+			}
+			// a rejected line continues the loop: from scanSegment's false edge no return is reachable before the data test
+			for _, ifi := range ifsIn(fn) {
+				if s, ok := boolEdge(ifi, func(v ssa.Value) bool { return v == ssa.Value(ss) }); ok {
+					early := false
+					forward([]startPoint{atEdge(ifi.Block(), 1-s)}, func(in ssa.Instruction) searchAction {
+						if _, ok := in.(*ssa.Return); ok {
+							early = true
+						}
+						if u, ok := in.(*ssa.UnOp); ok {
+							if _, ok := isFieldLoad(u, "parser.FieldParser", "data"); ok {
+								return stopPath
+							}
+						}
+						return cont
+					})
+					c.check(!early, name+":rejected-line-continues", P.pos(ifi.Pos()), "an ignored line (unknown field, comment) moves on to the next line", "an ignored line ends the scan instead of moving on to the next line")
+				}
+			}
+		}
+	}
+	// (b) BOM
+	bomFns := 0
+	for _, f := range P.Funcs {
+		if f.Pkg == nil || f.Pkg.Pkg.Path() != parserPath {
+			continue
+		}
+		eachInstr(f, func(in ssa.Instruction) {
+			call, ok := isStaticCall(in, "strings.HasPrefix", "strings.TrimPrefix", "strings.CutPrefix")
+			if !ok {
+				return
+			}
+			k, isK := constString(call.Call.Args[1])
+			if !isK || k != "\xEF\xBB\xBF" {
+				if isK && (len(k) == 3) && k != "\xEF\xBB\xBF" {
+					c.bad(fnLabel(f)+":bom-constant", P.ipos(call), "the BOM constant is not EF BB BF")
+				}
+				return
+			}
+			bomFns++
+			name := fnLabel(f) + ":bom-strip"
+			recv := f.Params[0]
+			isFld := func(field string) func(ssa.Value) bool {
+				return func(v ssa.Value) bool {
+					b, ok := isFieldLoad(v, "parser.FieldParser", field)
+					return ok && b == ssa.Value(recv)
+				}
+			}
+			// the strip: store to f.data of data[len(bom):] guarded by removeBOM, !started, HasPrefix
+			var strip *ssa.Store
+			eachInstr(f, func(x ssa.Instruction) {
+				st, ok := x.(*ssa.Store)
+				if !ok {
+					return
+				}
+				if b, ok := isFieldSel(st.Addr, "parser.FieldParser", "data"); ok && b == ssa.Value(recv) {
+					strip = st
+				}
+			})
+			if strip == nil {
+				c.bad(name, P.ipos(call), "the BOM is tested for but never removed")
+				return
+			}
+			sl, isSl := strip.Val.(*ssa.Slice)
+			lenOK := false
+			if isSl && isFld("data")(sl.X) && sl.High == nil {
+				if k, ok := constInt(sl.Low); ok && k == 3 {
+					lenOK = true
+				}
+			}
+			g := guardedByBool(f, strip.Block(), isFld("removeBOM"), true) && guardedByBool(f, strip.Block(), isFld("started"), false) &&
+				guardedByBool(f, strip.Block(), func(v ssa.Value) bool { return v == ssa.Value(call) }, true) && isFld("data")(call.Call.Args[0])
+			c.check(lenOK && g, name, P.ipos(strip), "exactly the three BOM bytes are removed, only when enabled, not yet started and the data starts with the BOM", "the BOM strip is not (data[3:] under removeBOM && !started && HasPrefix(data, BOM)): a BOM inside the stream is stripped or a leading one is kept")
+			// started is set with the strip
+			setStarted := false
+			eachInstr(f, func(x ssa.Instruction) {
+				if st, ok := x.(*ssa.Store); ok {
+					if b, ok := isFieldSel(st.Addr, "parser.FieldParser", "started"); ok && b == ssa.Value(recv) {
+						if bv, isC := constBool(st.Val); isC && bv && st.Block() == strip.Block() {
+							setStarted = true
+						}
+					}
+				}
+			})
+			c.check(setStarted, name+":marks-started", P.ipos(strip), "stripping the BOM marks the parser started (it is stripped at most once)", "stripping the BOM does not mark the parser as started: a second BOM would be stripped too")
+		})
+	}
+	if bomFns == 0 {
+		c.bad("parser:bom-strip", "-", "no BOM handling found in package parser")
+	}
+	// stream parser: RemoveBOM(true) at construction, RemoveBOM(false) once started, before Reset
+	if nw := P.Fn("parser.New"); nw != nil {
+		on := false
+		eachInstr(nw, func(in ssa.Instruction) {
+			if call, ok := isModCall(in, "(*parser.FieldParser).RemoveBOM"); ok {
+				if b, isC := constBool(call.Call.Args[1]); isC && b {
+					on = true
+				}
+			}
+		})
+		c.check(on, fnLabel(nw)+":bom-enabled", P.pos(nw.Pos()), "the stream parser enables BOM removal for the first token", "parser.New does not enable BOM removal")
+	}
+	if nx := P.Fn("(*parser.Parser).Next"); nx != nil {
+		var off, reset *ssa.Call
+		eachInstr(nx, func(in ssa.Instruction) {
+			if call, ok := isModCall(in, "(*parser.FieldParser).RemoveBOM"); ok {
+				if b, isC := constBool(call.Call.Args[1]); isC && !b {
+					off = call
+				}
+			}
+			if call, ok := isModCall(in, "(*parser.FieldParser).Reset"); ok {
+				reset = call
+			}
+		})
+		good := off != nil && reset != nil
+		if good {
+			isStarted := func(v ssa.Value) bool { _, ok := isModCall(v, "(*parser.FieldParser).Started"); return ok }
+			// every path to Reset on which Started() was true passes RemoveBOM(false)
+			blocked := map[cfgEdge]bool{}
+			for _, ifi := range ifsIn(nx) {
+				if s, ok := boolEdge(ifi, isStarted); ok {
+					blocked[cfgEdge{ifi.Block(), 1 - s}] = true
+				}
+			}
+			var started ssa.Instruction
+			eachInstr(nx, func(in ssa.Instruction) {
+				if call, ok := isModCall(in, "(*parser.FieldParser).Started"); ok {
+					started = call
+				}
+			})
+			good = started != nil && !reachesAvoiding(afterInstr(started), reset, func(in ssa.Instruction) bool { return in == ssa.Instruction(off) }, blocked)
+			// Reset receives the scanner's token text
+			if good {
+				_, isText := isStaticCall(reset.Call.Args[1], "(*bufio.Scanner).Text")
+				good = isText
+			}
+		}
+		c.check(good, fnLabel(nx)+":bom-once", P.pos(nx.Pos()), "once a token was started BOM removal is disabled before the next token is installed; Reset receives the scanner's token", "the stream parser does not disable BOM removal after the first token (or Reset does not get the scanner's token): a BOM at the start of a later event is stripped")
+	}
+	// (c) CRLF
+	ni := P.Fn("parser.NewlineIndex")
+	if ni == nil || len(ni.Params) != 1 {
+		c.anchor("parser.NewlineIndex")
+		return
+	}
+	rets := returnsOf(ni)
+	if len(rets) != 1 {
+		return
+	}
+	ln, ok := rets[0].Results[1].(*ssa.Phi)
+	idx, ok2 := rets[0].Results[0].(*ssa.Phi)
+	if !ok || !ok2 {
+		c.undecided("parser.NewlineIndex:crlf", P.pos(ni.Pos()), "length/index are not phis")
+		return
+	}
+	s := ni.Params[0]
+	charAt := func(v ssa.Value, off int64) bool {
+		ix, ok := v.(*ssa.Index)
+		if !ok || ix.X != ssa.Value(s) {
+			return false
+		}
+		if off == 0 {
+			return ix.Index == ssa.Value(idx)
+		}
+		b, ok := ix.Index.(*ssa.BinOp)
+		if !ok || b.Op != token.ADD || b.X != ssa.Value(idx) {
+			return false
+		}
+		k, isK := constInt(b.Y)
+		return isK && k == off
+	}
+	isCR := func(ifi *ssa.If) (int, bool) {
+		cnd := decodeIf(ifi)
+		if cnd.Y == nil || cnd.Op != token.EQL {
+			return 0, false
+		}
+		k, isK := constInt(cnd.Y)
+		if isK && k == 13 && charAt(cnd.X, 0) {
+			return cnd.succWhen(true), true
+		}
+		return 0, false
+	}
+	isLFnext := func(ifi *ssa.If) (int, bool) {
+		cnd := decodeIf(ifi)
+		if cnd.Y == nil || cnd.Op != token.EQL {
+			return 0, false
+		}
+		k, isK := constInt(cnd.Y)
+		if isK && k == 10 && charAt(cnd.X, 1) {
+			return cnd.succWhen(true), true
+		}
+		return 0, false
+	}
+	inBounds := func(ifi *ssa.If) (int, bool) {
+		cnd := decodeIf(ifi)
+		if cnd.Y == nil || cnd.Op != token.LSS || cnd.X != ssa.Value(idx) {
+			return 0, false
+		}
+		// index < len(s)-1
+		b, ok := cnd.Y.(*ssa.BinOp)
+		if !ok || b.Op != token.SUB || !isLenOf(b.X, s) {
+			return 0, false
+		}
+		k, isK := constInt(b.Y)
+		if isK && k == 1 {
+			return cnd.succWhen(true), true
+		}
+		return 0, false
+	}
+	two := false
+	badOne := false
+	for i, e := range ln.Edges {
+		k, isK := evalInt(e)
+		if !isK {
+			continue
+		}
+		pred := ln.Block().Preds[i]
+		dom := func(pick func(*ssa.If) (int, bool)) bool {
+			for _, ifi := range ifsIn(ni) {
+				if sidx, ok := pick(ifi); ok && (edgeDominates(ifi.Block(), sidx, pred) || (ifi.Block() == pred && false)) {
+					return true
+				}
+			}
+			return false
+		}
+		switch k {
+		case 2:
+			if dom(isCR) && dom(isLFnext) && dom(inBounds) {
+				two = true
+			} else {
+				badOne = true
+			}
+		case 1:
+			// must come from the false edge of one of the three tests (pred is the test's own block)
+			okk := false
+			if ifi, isIf := pred.Instrs[len(pred.Instrs)-1].(*ssa.If); isIf {
+				for _, pick := range []func(*ssa.If) (int, bool){isCR, isLFnext, inBounds} {
+					if sidx, ok := pick(ifi); ok && pred.Succs[1-sidx] == ln.Block() {
+						okk = true
+					}
+				}
+			}
+			if !okk {
+				badOne = true
+			}
+		}
+	}
+	c.check(two && !badOne, "parser.NewlineIndex:crlf", P.pos(ni.Pos()), "length is 2 exactly for CR followed by LF inside the string, 1 for every other line break", "NewlineIndex does not report length 2 exactly for CR immediately followed by LF (within bounds): CRLF counts as two line breaks (a spurious blank line ends the event early) or a lone CR swallows the next byte")
+}
+
+func isGlobalLoadPkg(v ssa.Value, pkg, name string) bool {
+	a, ok := loadedFrom(v)
+	if !ok {
+		return false
+	}
+	g, ok := a.(*ssa.Global)
+	return ok && g.Name() == name && g.Pkg != nil && g.Pkg.Pkg.Path() == pkg
+}
